@@ -459,10 +459,24 @@ func runC09(c *Ctx) {
 	}
 	// ---- (b) instruction-count differential, native entry points
 	// both rendering paths of the library (<= 8 digits / > 8 digits) are covered in quick
-	cfgs := []ctConfig{{Target: "hotp", Digits: 10, Skew: 1}, {Target: "totp", Digits: 9, Algo: 1}, {Target: "ocra", Digits: 6}, {Target: "hotp", Digits: 6, Algo: 2, LeadingZeros: 2}, {Target: "totp", Digits: 8, Skew: 1}}
+	// quick: every HOTP length from 6 to 10 (the common lengths and the one in between), one short length, both
+	// rendering paths, a leading-zero code, one OCRA length outside {6,8,10}; thorough: every length of every target
+	cfgs := []ctConfig{{Target: "hotp", Digits: 10, Skew: 1}, {Target: "hotp", Digits: 9}, {Target: "hotp", Digits: 8, Algo: 1}, {Target: "hotp", Digits: 7}, {Target: "hotp", Digits: 6, Algo: 2, LeadingZeros: 2},
+		{Target: "totp", Digits: 4, Skew: 1}, {Target: "totp", Digits: 9, Algo: 1}, {Target: "ocra", Digits: 7}, {Target: "ocra", Digits: 6}}
 	ctBothFamilies = c.Thorough
 	if c.Thorough {
 		cfgs = nil
+		for d := 1; d <= 10; d++ {
+			if d != 6 && d != 8 && d != 9 && d != 10 {
+				cfgs = append(cfgs, ctConfig{Target: "hotp", Digits: d, Algo: d % 3})
+				if d >= 4 {
+					cfgs = append(cfgs, ctConfig{Target: "ocra", Digits: d, Algo: (d + 1) % 3})
+				}
+				if d%2 == 1 {
+					cfgs = append(cfgs, ctConfig{Target: "totp", Digits: d, Skew: 1})
+				}
+			}
+		}
 		for _, t := range []string{"hotp", "totp", "ocra"} {
 			for _, d := range []int{6, 8, 9, 10} {
 				sk := uint64(0)
@@ -472,8 +486,7 @@ func runC09(c *Ctx) {
 				cfgs = append(cfgs, ctConfig{t, d, sk, (d + len(t)) % 3, false, 0})
 			}
 		}
-		cfgs = append(cfgs, ctConfig{"hotp", 7, 0, 0, false, 0}, ctConfig{"hotp", 4, 1, 1, false, 0}, ctConfig{"totp", 1, 0, 0, false, 0},
-			ctConfig{"hotp", 8, 0, 0, false, 3}, ctConfig{"totp", 10, 0, 2, false, 2}, ctConfig{"hotp", 9, 1, 1, false, 1})
+		cfgs = append(cfgs, ctConfig{"hotp", 8, 0, 0, false, 3}, ctConfig{"totp", 10, 0, 2, false, 2}, ctConfig{"hotp", 9, 1, 1, false, 1})
 	}
 	var cnt []ctCase
 	for _, g := range cfgs {
